@@ -9,6 +9,7 @@ use super::env::at_lb;
 use super::env::protocol;
 use super::monitor;
 use super::shadow;
+use super::shadow::unroll;
 use crate::engine::propagation::Propagator;
 use crate::engine::variables::AffineView;
 use crate::engine::variables::DomainId;
@@ -43,7 +44,7 @@ fn sem_abs(at: fn(usize) -> i64) -> bool {
 }
 
 verif_harness! {
-    #[kani::unwind(8)]
+    #[kani::unwind(4)]
     fn abs_ids_full() {
         shadow::init_any(1, 1);
         shadow::init_any(2, 0);
@@ -56,7 +57,7 @@ verif_harness! {
 }
 
 verif_harness! {
-    #[kani::unwind(8)]
+    #[kani::unwind(4)]
     fn abs_negated_view_full() {
         // |-x| = y through a scaled(-1) view: the bound swap of the view meets the sign cases.
         shadow::init_any(1, 0);
@@ -75,22 +76,20 @@ verif_harness! {
 // ---------------------------------------------------------------------------------------------
 fn sem_max(n: usize, at: fn(usize) -> i64) -> bool {
     let mut m = at(1);
-    let mut i = 2;
-    while i <= n {
-        if at(i) > m {
+    unroll!(i in [2, 3] {
+        if i <= n && at(i) > m {
             m = at(i);
         }
-        i += 1;
-    }
+    });
     m == at(n + 1)
 }
 
 fn maximum(n: usize, holes: usize) {
-    let mut i = 1;
-    while i <= n + 1 {
-        shadow::init_any(i, holes);
-        i += 1;
-    }
+    unroll!(i in [1, 2, 3, 4] {
+        if i <= n + 1 {
+            shadow::init_any(i, holes);
+        }
+    });
     monitor::pick_points(n + 1);
     monitor::set_semantics(sem_max(n, monitor::v), sem_max(n, monitor::w));
     let array: Vec<DomainId> = (1..=n).map(id).collect();
@@ -100,29 +99,27 @@ fn maximum(n: usize, holes: usize) {
 }
 
 verif_harness! {
-    #[kani::unwind(8)]
+    #[kani::unwind(4)]
     fn max_ids_2() {
-        maximum(2, 1);
+        maximum(2, 0);
     }
 }
 
 verif_harness! {
-    #[kani::unwind(8)]
+    #[kani::unwind(5)]
     fn max_ids_3() {
         maximum(3, 0);
     }
 }
 
 verif_harness! {
-    #[kani::unwind(8)]
+    #[kani::unwind(4)]
     fn min_as_negated_max_2() {
         // `constraints::minimum` is `maximum` over scaled(-1) views.
-        let mut i = 1;
-        while i <= 3 {
+        unroll!(i in [1, 2, 3] {
             shadow::init_any(i, 0);
             kani::assume(shadow::lb(i) > i32::MIN);
-            i += 1;
-        }
+        });
         monitor::pick_points(3);
         fn sem_min(at: fn(usize) -> i64) -> bool {
             let m = if at(1) < at(2) { at(1) } else { at(2) };
@@ -145,11 +142,9 @@ fn sem_mul(at: fn(usize) -> i64) -> bool {
 }
 
 fn multiplication(range: i32) {
-    let mut i = 1;
-    while i <= 3 {
+    unroll!(i in [1, 2, 3] {
         shadow::init_within(i, -range, range, 0);
-        i += 1;
-    }
+    });
     monitor::pick_points(3);
     // The arbitrary point V is kept in a range where the reference product cannot overflow
     // i64; the explanation obligation is about the constraint, not about huge V.
@@ -160,21 +155,21 @@ fn multiplication(range: i32) {
 }
 
 verif_harness! {
-    #[kani::unwind(8)]
+    #[kani::unwind(4)]
     fn mul_ids_64() {
         multiplication(64);
     }
 }
 
 verif_harness! {
-    #[kani::unwind(8)]
+    #[kani::unwind(4)]
     fn mul_ids_1024() {
         multiplication(1024);
     }
 }
 
 verif_harness! {
-    #[kani::unwind(8)]
+    #[kani::unwind(4)]
     fn mul_ids_66000() {
         // 65536 * 65536 = 2^32 is past the i32 product boundary (46341^2 > i32::MAX).
         multiplication(66000);
@@ -189,11 +184,9 @@ fn sem_div(at: fn(usize) -> i64) -> bool {
 }
 
 fn division(range: i32) {
-    let mut i = 1;
-    while i <= 3 {
+    unroll!(i in [1, 2, 3] {
         shadow::init_within(i, -range, range, 0);
-        i += 1;
-    }
+    });
     // documented precondition of `constraints::division`
     kani::assume(!shadow::contains(2, 0));
     monitor::pick_points(3);
@@ -204,14 +197,14 @@ fn division(range: i32) {
 }
 
 verif_harness! {
-    #[kani::unwind(8)]
+    #[kani::unwind(4)]
     fn div_ids_64() {
         division(64);
     }
 }
 
 verif_harness! {
-    #[kani::unwind(8)]
+    #[kani::unwind(4)]
     fn div_ids_1024() {
         division(1024);
     }
